@@ -75,26 +75,20 @@ theorem setEvent_keeps {s : St} (n : Node) {w : Wait} (h : NoneBlocked s w) : No
   noneBlocked_map_wake _ rfl h
 
 /-- **the `finally` of `_run_node` wakes everybody it should**: the event waiters of the node, `run()`, every task
-waiting on the condition of a node in `__get_descendants(u)`, and — when `u` is the destination of the DAG that ran
-it — the tasks waiting on `u` itself -/
+waiting on the condition of a node in `__get_descendants(u)`, and the tasks waiting on `u` itself (whichever DAG ran
+it) -/
 theorem nodeFinally_wakes (P : Program) (s : St) (d : DagRef) (u : Node) :
     NoneBlocked (nodeFinally P s d u true) (.event u) ∧ NoneBlocked (nodeFinally P s d u true) (.cond .run) ∧
     (∀ m ∈ P.g.desc1 u, NoneBlocked (nodeFinally P s d u true) (.cond (.node m))) ∧
-    (d.dest = some u → NoneBlocked (nodeFinally P s d u true) (.cond (.node u))) := by
+    NoneBlocked (nodeFinally P s d u true) (.cond (.node u)) := by
   unfold nodeFinally
   simp only [Bool.not_true, Bool.false_eq_true, if_false]
   have h1 := setEvent_noneBlocked s u
   have h2 : ∀ m ∈ P.g.desc1 u, NoneBlocked (notifyAll (setEvent s u) ((P.g.desc1 u).map Key.node)) (.cond (.node m)) :=
     fun m hm => notifyAll_noneBlocked _ _ _ (List.mem_map.mpr ⟨m, hm, rfl⟩)
-  split
-  · next hd =>
-    refine ⟨notify_keeps _ (notify_keeps _ (notifyAll_keeps _ h1)), notify_keeps _ (notify_noneBlocked _ _), ?_, ?_⟩
-    · intro m hm; exact notify_keeps _ (notify_keeps _ (h2 m hm))
-    · intro _; exact notify_noneBlocked _ _
-  · next hd =>
-    refine ⟨notify_keeps _ (notifyAll_keeps _ h1), notify_noneBlocked _ _, ?_, ?_⟩
-    · intro m hm; exact notify_keeps _ (h2 m hm)
-    · intro hdu; rw [hdu] at hd; simp at hd
+  refine ⟨notify_keeps _ (notify_keeps _ (notifyAll_keeps _ h1)), notify_keeps _ (notify_noneBlocked _ _), ?_,
+    notify_noneBlocked _ _⟩
+  intro m hm; exact notify_keeps _ (notify_keeps _ (h2 m hm))
 
 /-! ### who is in `__get_descendants` -/
 
